@@ -194,7 +194,9 @@ RandPaths == LET A == RandomSubset(Num, GoodSubs) B == RandomSubset(3, GoodSubs)
 CurveShapes == {<<"circle", TRUE>>, <<"bigarc", FALSE>>, <<"quarter", FALSE>>, <<"quad", FALSE>>, <<"cubic", FALSE>>,
                 <<"cubic-s", FALSE>>, <<"ellipse", TRUE>>, <<"mixed", TRUE>>, <<"mixed-open", FALSE>>,
                 \* cubics with two inflection points strictly inside (0,1): (0,0)(9,6)(1,6)(10,0) etc., see props/c05/geom.go
-                <<"cubic-2i-a", FALSE>>, <<"cubic-2i-b", FALSE>>, <<"cubic-2i-c", FALSE>>}
+                <<"cubic-2i-a", FALSE>>, <<"cubic-2i-b", FALSE>>, <<"cubic-2i-c", FALSE>>,
+                \* collinear quadratic with the control point beyond an end (runs out and back), followed by a line
+                <<"quad-over", FALSE>>, <<"quad-under", FALSE>>}
 CurvePaths == {<< Sub(c[1], <<>>, c[2], n) >> : c \in CurveShapes, n \in {7, 12, 24}}
               \cup {<< Sub("quad", <<>>, FALSE, 6), Sub("circle", <<>>, TRUE, 12) >>}
 
@@ -211,7 +213,8 @@ QOf == IF Fam = "curve" THEN 100 ELSE 1
 \* curves: 0.1 unit; cubics with two inflection points: 1.25 % of the curve length if that is more (calibrated: the library's
 \* inverse arc length is off by up to 0.88 % of the length on them, 0.1 % on other cubics; the statement allows 1 % of the
 \* curve length, see notes/C05.md)
-TwoInflShapes == {"cubic-2i-a", "cubic-2i-b", "cubic-2i-c"}
+\* (also the collinear out-and-back quadratics: the speed has a zero inside the curve, same calibrated 0.7 %)
+TwoInflShapes == {"cubic-2i-a", "cubic-2i-b", "cubic-2i-c", "quad-over", "quad-under"}
 SubTol(s) == IF s.shape \in TwoInflShapes THEN MaxI(10, (5 * s.L + 3) \div 4) ELSE 10
 RECURSIVE MaxTol(_, _)
 MaxTol(p, j) == IF j = 0 THEN 0 ELSE MaxI(SubTol(p[j]), MaxTol(p, j - 1))
